@@ -184,6 +184,13 @@ def cases(tier):
     fam = family(2 if q else 4, 2 if q else 3)
     cs = []
     seen = set()
+    # short-keyword patterns with two / three numeric keywords (cheap enough for the quick tier: short spellings, 1 digit)
+    short_multi = ["Ab[:Cd#][:Ef#]?", "Ab#:Cd#"] if q else ["Ab#[:Cd#][:Ef#]", "Ab[:Cd#][:Ef#]?", "Ab#:Cd#", "[:Ab#]:Cd#[:Ef]"]
+    for p in short_multi:
+        seen.add(p)
+        c = mk(p, 11, 900 if q else 3000, 1 if q else 3)
+        if c is not None:
+            cs.append(c)
     for p in pats + fam:
         if p in seen:
             continue
